@@ -459,6 +459,24 @@ pub fn run(tier: &str, seed: u64) -> i32 {
             rec: vec![],
         });
     }
+    // beyond that depth: definitions with three parameters (one instantiation: which argument got the smaller id
+    // must not matter for the marker) and an associated type three levels down (two instantiations)
+    for s in crate::families::three_inst_slice(false) {
+        let keep = s.form == BodyForm::Named
+            && ((s.params == ParamForm::Three
+                && s.insts.len() == 1
+                // (the numbering is permuted here anyway: one all-primitive and one mixed instantiation)
+                && matches!(&s.insts[0][0], Ty::Prim(Prim::U8) | Ty::Named(..)))
+                || matches!(s.params, ParamForm::ConfigSkipped | ParamForm::ConfigKept));
+        if !keep || !wf5_ok(&s) {
+            continue;
+        }
+        let prog = s.program();
+        if s.insts.iter().any(|a| coincidence(&prog.defs[G_D], a, &prog).is_err()) {
+            continue;
+        }
+        cases.push(PermCase { prog, perm: None, rec: vec![] });
+    }
     bounds.push(("D-family", cases.len()));
     // D-family (twins carry equal docs by construction)
     let f = DFamily {
